@@ -353,7 +353,7 @@ Definition step_fb (c : config) (st : state) (r j : nat) (ids : list id) : state
           let none := OFetch (map (fun _ => None) ids) in
           let lo := fold_right (fun x m => N.min (fst x) m) max_mid ids in
           let hi := fold_right (fun x m => N.max (fst x) m) 0%N ids in
-          let flagged := map (fun x => (x, intersects f (fst x) (fst x))) ids in
+          let flagged : list (id * bool) := map (fun x : id => (x, intersects f (fst x) (fst x))) ids in
           match ids with
           | [] => (st, OFetch [])
           | _ =>
@@ -365,7 +365,7 @@ Definition step_fb (c : config) (st : state) (r j : nat) (ids : list id) : state
                  (set_op (setf st g (fun f => set_rl f (S (f_rl f)))) r
                          (RFetch g flagged (length (f_blocks f))), OHook 24)
           else if f_ssui f then (st, none)
-          else (st, OFetch (map (fun xb => if snd xb then sealed_fetch f (fst xb) else None) flagged))
+          else (st, OFetch (map (fun xb : id * bool => if snd xb then sealed_fetch f (fst xb) else None) flagged))
           end
       | _, _ => (st, ODisabled)
       end
@@ -467,7 +467,7 @@ Definition step_sui (st : state) : state * obs :=
                     if Nat.eqb (f_seal f) 99
                     then mkFrac (f_act f) (f_sld f) (f_ro f) (f_blocks f) (f_pos f) (f_ids f) (f_toks f) (f_from f) (f_to f)
                                 (f_total f) (f_wg f) (f_rl f) (f_subs f) (f_seal f) (f_sdocs f) true
-                    else mkFrac false false true (f_blocks f) (f_pos f) (f_ids f) (f_toks f) (f_from f) (f_to f)
+                    else mkFrac false false (f_ro f) (f_blocks f) (f_pos f) (f_ids f) (f_toks f) (f_from f) (f_to f)
                                 (f_total f) (f_wg f) (f_rl f) (f_subs f) (f_seal f) (f_sdocs f) true) (fracs st))
           (S (shift st)) (ws st) (rs st), OUnit)
   else (st, ODisabled).
